@@ -3,6 +3,8 @@ import Mimium.Proofs.FlatTreeTop
 import Mimium.Proofs.FlatTreeLabel
 import Mimium.Proofs.FlatTreeEval
 import Mimium.Proofs.FlatTreeVisits
+import Mimium.Proofs.PublishOk
+import Mimium.Proofs.PublishPrune
 /-!
 # C05 — compile-time state layout matches run-time state accesses
 
@@ -399,3 +401,106 @@ example :
   exact ⟨hw, hf, hs, (C05_serialize_deserialize _ _ hsk.2 (by rw [LNode.sk_size, hs]; rfl)).2.1⟩
 
 end Mimium.FlatTree
+
+namespace Mimium.Publish
+open Mimium.Core Mimium.Cells Mimium.StateTree Mimium.Layout Mimium.StateMachine Mimium.FlatTree
+
+/-! ## the published layout, computed (third part of this file, namespace `Mimium.Publish`)
+
+`Model/Publish.lean` defines IN LEAN what mirgen publishes for a function: `publishFnN n P d` (`publishFn` = depth
+`|P.fns|`) — the labelled layout built the way `eval_expr` builds `state_skeleton` (operands before the operation,
+arguments left to right, the callee's layout as a child, `self` as the leading `Feed`, nothing for a lambda, the LARGER arm
+of an `if`) — and `publishedSk lay`, the bare skeleton (`emit_fncall` publishes nothing for a callee without state).  The
+correspondence stage compares `publishedSk (publishFn P dsp)` with the skeleton of the real compiler for every generated
+program.  The theorems below discharge the hypotheses `Visits` / `Covers` / `LNode.Ok` of the evaluator-level theorems
+above for that layout, for EVERY program, function, call depth `n`: what remains are syntactic, decidable class predicates
+* `noStateInArmsN n P body` — no cell is published for an arm of an `if`, in the body and in every function it
+  transitively calls (outside this class mirgen's layout is NOT visited in order: finding F3);
+* `SitesUnique P`, `SitesOk body` — the stateful sites of one function body are pairwise distinct, ring lengths < 2^64;
+and `publishFnN n P d = some lay` (every called function exists and the call graph below `d` is acyclic within depth `n`). -/
+
+/-- **the published layout is visited.**  For every program, expression and call depth: if no cell is published for an
+`if` arm (here and in the callees), the evaluation of `e` visits exactly the cells `pubE` publishes for it, in that
+order, once each (`Visits`), and hence every stateful construct of `e` owns a cell of its kind in them (`Covers`) -/
+theorem C05_publish_visits (n : Nat) (P : Prog) (e : Expr) (seg : List LCell)
+    (harms : noStateInArmsN n P e = true) (hpub : publishEN n P e = some seg) :
+    Visits P e seg ∧ Covers P seg e :=
+  have hv := publishEN_visits n P e seg harms hpub
+  ⟨hv, visits_covers P hv seg (fun _ h => h)⟩
+
+/-- the same for a function: its layout is `self` shape + the cells its body visits -/
+theorem C05_publishFn_visits (n : Nat) (P : Prog) (d : FnDecl) (lay : LNode)
+    (harms : noStateInArmsN n P d.body = true) (hpub : publishFnN n P d = some lay) :
+    lay.self = d.selfShape ∧ Visits P d.body lay.cells ∧ Covers P lay.cells d.body :=
+  have hi := publishFnN_inv hpub
+  ⟨hi.1, C05_publish_visits n P d.body lay.cells harms hi.2⟩
+
+/-- `Visits` is the stronger discipline: whatever is visited is covered (so `Covers` never was an independent hypothesis) -/
+theorem C05_visits_covers (P : Prog) (e : Expr) (seg cells : List LCell) (h : Visits P e seg)
+    (hsub : ∀ c ∈ seg, c ∈ cells) : Covers P cells e := visits_covers P h cells hsub
+
+/-- **the published layout is well formed.**  Sibling cells have distinct sites and ring lengths fit a word
+(`LNode.Ok`) when the stateful sites of every function body are pairwise distinct and ring lengths are < 2^64 -/
+theorem C05_publish_ok (n : Nat) (P : Prog) (d : FnDecl) (lay : LNode)
+    (hs : SitesUnique P) (hd : SitesOk d.body) (hpub : publishFnN n P d = some lay) : lay.Ok :=
+  publishEN_ok n P d.body lay.cells hs hd (publishFnN_inv hpub).2
+
+/-- **the bare skeleton means the same.**  Dropping the zero-sized children of calls of stateless functions (what
+`emit_fncall` does) keeps the skeleton well formed, keeps its total size (the storage `execute_idx` allocates) and the
+access sequence it prescribes, at every base address -/
+theorem C05_published_skeleton_same_meaning (lay : LNode) :
+    WF (publishedSk lay) = true ∧ (publishedSk lay).size = lay.sk.size ∧
+    ∀ b, expectedTrace (publishedSk lay) b = expectedTrace lay.sk b := publishedSk_spec lay
+
+/-- **one sample of any function instance: reference evaluator = flat machine at the published offsets.**
+For every program `P`, function `d` (of `P` or not), call depth `n` with `publishFnN n P d = some lay`, in the class
+(no cell published for an `if` arm, sites unique): one sample of an instance of `d` in the reference semantics (`self`
+zero-initialised if absent, body evaluated against the instance's tree `st`, returned value stored as the new `self`) and the
+state instructions of the call, run on the flat image `serialize lay st` of the tree anywhere in a larger storage, commute
+with `serialize`; the accesses are exactly those the PUBLISHED skeleton prescribes at that base, every one inside the
+region of `total_size` words, the cursor returns, the rest of the storage is untouched, and the next tree conforms again.
+No `Visits` / `Covers` / `LNode.Ok` hypothesis is left.  (`NPayOk`: returned values have the word count of their `Feed`
+cell — a typing fact; the soundness of the type checker is not proved, see C03.) -/
+theorem C05_published_instance_is_flat_call (fuel n : Nat) (P : Prog) (d : FnDecl) (lay : LNode)
+    (rt : Rt) (env : Env) (σ : Store) (st : SNode) (v : Val) (σ' : Store) (st1 : SNode)
+    (hpub : publishFnN n P d = some lay)
+    (harms : noStateInArmsN n P d.body = true) (hs : SitesUnique P) (hd : SitesOk d.body)
+    (hc : Conforms lay st)
+    (h : eval fuel P rt env d.body σ (initSelf d.selfShape st) = .ok (v, σ', st1)) :
+    ∃ ps, PayShapeL lay.cells ps ∧ finSelf d.selfShape st1 v = (treeNode lay ⟨v, ps⟩ st).1 ∧
+      (NPayOk lay ⟨v, ps⟩ → ∀ pre post : List UInt64,
+        vmRun ⟨pre.length, pre ++ serialize lay st ++ post⟩ (flatNode lay ⟨v, ps⟩) =
+          some (⟨pre.length, pre ++ serialize lay (finSelf d.selfShape st1 v) ++ post⟩, (treeNode lay ⟨v, ps⟩ st).2) ∧
+        accessesOf pre.length (flatNode lay ⟨v, ps⟩) = expectedTrace (publishedSk lay) pre.length ∧
+        (∀ a ∈ expectedTrace (publishedSk lay) pre.length,
+          pre.length ≤ a.pos ∧ a.pos + a.size ≤ pre.length + (publishedSk lay).size) ∧
+        (serialize lay st).length = (publishedSk lay).size ∧
+        Conforms lay (finSelf d.selfShape st1 v)) := by
+  obtain ⟨hself, hvis, _⟩ := C05_publishFn_visits n P d lay harms hpub
+  have hl := C05_publish_ok n P d lay hs hd hpub
+  rw [← hself] at h ⊢
+  obtain ⟨ps, hp, he, hrest⟩ := C05_eval_instance_is_flat_call fuel P rt env σ lay d.body st v σ' st1 hl hc hvis h
+  obtain ⟨hwf, hsz, htr⟩ := publishedSk_spec lay
+  refine ⟨ps, hp, he, fun hpay pre post => ?_⟩
+  obtain ⟨hrun, hacc, hconf⟩ := hrest hpay pre post
+  refine ⟨hrun, by rw [htr]; exact hacc, ?_, by rw [hsz]; exact C05_serialize_size lay st hc, hconf⟩
+  exact C05_expected_in_bounds (publishedSk lay) pre.length hwf
+
+/-- the published storage loses nothing the evaluator can see: what an instance of `d` returns, sample after sample,
+depends only on its flat state words laid out by the published layout (`Covers` discharged) -/
+theorem C05_published_same_words_same_eval_future (fuel n : Nat) (P : Prog) (d : FnDecl) (lay : LNode)
+    (samples : List (Rt × Env × Store)) (a b : SNode)
+    (hpub : publishFnN n P d = some lay)
+    (harms : noStateInArmsN n P d.body = true) (hs : SitesUnique P) (hd : SitesOk d.body)
+    (ha : ConformsS lay a) (hb : ConformsS lay b) (h : serialize lay a = serialize lay b) :
+    instRun fuel P d.selfShape d.body samples a = instRun fuel P d.selfShape d.body samples b := by
+  obtain ⟨hself, _, hcov⟩ := C05_publishFn_visits n P d lay harms hpub
+  rw [← hself]
+  exact C05_same_words_same_eval_future fuel P lay d.body samples a b (C05_publish_ok n P d lay hs hd hpub) hcov ha hb h
+
+/-- `publishFn` / `publishE` / `noStateInArms` are the instances at depth `|P.fns|` -/
+theorem C05_publishFn_is_depth_instance (P : Prog) (d : FnDecl) (e : Expr) :
+    publishFn P d = publishFnN P.fns.length P d ∧ publishE P e = publishEN P.fns.length P e ∧
+    noStateInArms P e = noStateInArmsN P.fns.length P e := ⟨rfl, rfl, rfl⟩
+
+end Mimium.Publish
